@@ -28,6 +28,8 @@ def _chain_has_kind_test(n: ast.If) -> bool:
         t = n.test
         if isinstance(t, ast.Compare) and isinstance(t.left, ast.Name) and t.left.id == "kind":
             return True
+        if isinstance(t, ast.BoolOp) and all(isinstance(v, ast.Compare) and isinstance(v.left, ast.Name) and v.left.id == "kind" for v in t.values):
+            return True
         if len(n.orelse) == 1 and isinstance(n.orelse[0], ast.If):
             n = n.orelse[0]
         else:
@@ -65,6 +67,15 @@ def kind_arms(loop_or_fn: ast.AST, scopes: list = None, ctx=None) -> dict:
         scopes = scopes_of(ctx, loop_or_fn)
 
     def test_kinds(t: ast.AST):
+        if isinstance(t, ast.BoolOp) and isinstance(t.op, ast.Or):
+            # `kind == "L" or kind == "E"` is `kind in ("L", "E")`
+            acc = []
+            for v in t.values:
+                ks, _ = test_kinds(v)
+                if ks is None:
+                    return None, False
+                acc.extend(k for k in ks if k not in acc)
+            return acc, True
         if isinstance(t, ast.Compare) and len(t.ops) == 1 and isinstance(t.left, ast.Name) and t.left.id == "kind":
             rhs = t.comparators[0]
             if isinstance(t.ops[0], ast.Eq) and isinstance(rhs, ast.Constant) and isinstance(rhs.value, str):
@@ -133,6 +144,11 @@ def expand_shared_arms(node: ast.AST, ctx) -> ast.AST:
         def visit_If(self, n):
             self.generic_visit(n)
             t = n.test
+            if isinstance(t, ast.BoolOp) and isinstance(t.op, ast.Or) and len(t.values) > 1 and all(
+                    isinstance(v, ast.Compare) and len(v.ops) == 1 and isinstance(v.ops[0], ast.Eq) and isinstance(v.left, ast.Name)
+                    and v.left.id == "kind" and isinstance(v.comparators[0], ast.Constant) for v in t.values):
+                t = ast.Compare(left=ast.Name(id="kind", ctx=ast.Load()), ops=[ast.In()],
+                                comparators=[ast.Tuple(elts=[v.comparators[0] for v in t.values], ctx=ast.Load())])
             if isinstance(t, ast.Compare) and len(t.ops) == 1 and isinstance(t.ops[0], ast.In) and isinstance(t.left, ast.Name) and t.left.id == "kind":
                 rhs = t.comparators[0]
                 tbl = find_table(rhs.id, scopes) if isinstance(rhs, ast.Name) else rhs
